@@ -127,6 +127,15 @@ func (fc *fnCtx) staticCall(cs *callSite, callee *ssa.Function, bindings []*val)
 			strings.HasPrefix(pkgPathOf(callee), modulePath) && touchesLocks(callee, 6, map[*ssa.Function]bool{}) {
 			return fc.inline(cs, callee, bindings)
 		}
+		if callee.Blocks != nil && callee.Parent() != nil && len(fc.topOrders()) > 0 && fc.lexicallyInTop() && !fc.inChain(callee) &&
+			fc.depth < g.maxDepth+2 && g.instrs < maxInstrs && (g.w.contractOf(callee) == nil || g.w.contractOf(callee).inline) {
+			// a function literal of the function under an order contract: its events count, so its body is needed
+			for p := callee.Parent(); p != nil; p = p.Parent() {
+				if p == fc.topCtx().fn {
+					return fc.inline(cs, callee, bindings)
+				}
+			}
+		}
 		return fc.havocCall(cs, false)
 	}
 	if tc := g.w.trustedExt[name]; tc != nil {
@@ -1412,6 +1421,25 @@ func (fc *fnCtx) eventKeyOfCall(cs *callSite, method string) string {
 	return fc.addrText(cs.common.Args[0]) + "." + method
 }
 
+// lexicallyInTop: fc is the function under contract, or a function literal written inside it (inlined at its call or
+// at the point where the deferred calls run): its events are events of the function under contract.
+func (fc *fnCtx) lexicallyInTop() bool {
+	top := fc.topCtx()
+	for c := fc; c != top; c = c.parent {
+		in := false
+		for p := c.fn.Parent(); p != nil; p = p.Parent() {
+			if p == top.fn {
+				in = true
+				break
+			}
+		}
+		if !in {
+			return false
+		}
+	}
+	return true
+}
+
 func (fc *fnCtx) topOrders() []orderRule {
 	top := fc.topCtx()
 	if c := fc.g.w.contractOf(top.fn); c != nil {
@@ -1432,12 +1460,13 @@ func (fc *fnCtx) topHasOrderEvent(ev string) bool {
 // event records the execution of ev (res = results of the call, nil for stores) and checks the order rules.
 func (fc *fnCtx) event(ev string, res *val, pos token.Pos) {
 	g := fc.g
-	if !g.lite || fc.parent != nil {
-		return // rules speak about the events of the function under contract itself
+	if !g.lite || !fc.lexicallyInTop() {
+		return // rules speak about the events of the function under contract itself (incl. its function literals)
 	}
+	top := fc.topCtx()
 	for _, o := range fc.topOrders() {
 		if o.after == ev {
-			g.oblige(obligation{name: fmt.Sprintf("order:%s:%s", fnKeyQ(fc.fn), o.label), kind: "order", guard: fc.curR,
+			g.oblige(obligation{name: fmt.Sprintf("order:%s:%s", fnKeyQ(top.fn), o.label), kind: "order", guard: fc.curR,
 				cond: fmt.Sprintf("(= %s 1)", sel(fc.curH["GL"], evRef, evIndex(o.before))), pos: g.w.posString(pos)})
 		}
 	}
